@@ -48,7 +48,7 @@ def parse_write(bib, text, budget=None):
 
 
 def _extra(bib, text, e, toks):
-    x = parse_write(bib, text)
+    x = parse_write(bib, text, 20)
     if x:
         x["text"] = text
     return x
@@ -96,6 +96,20 @@ def run(chk: core.Check):
             texts.append(t)
             labels.append(f"{name}[{n}]")
     garb = splitpipe.garbage(rnd, ngarb)
+    # documents whose @string values and field values are bare identifiers from one small pool: references,
+    # self-references, cycles, duplicates, undefined names
+    from .. import docgen
+    pool = ["a", "b", "c", "A"]
+    refvals = pool + ["{a}", '"b"', "a # b", "1", "", "c # {x}"]
+    for i in range(ngarb // 10):
+        d = docgen.Doc()
+        for j in range(rnd.randint(1, 6)):
+            if rnd.random() < 0.5:
+                docgen.gen_string(d, rnd, rnd.choice(pool), rnd.choice(refvals), ws=["", " "])
+            else:
+                docgen.gen_entry(d, rnd, rnd.choice(pool) + str(j), fields=[(k, rnd.choice(refvals)) for k in rnd.sample(pool, rnd.randint(0, 3))], ws=["", " "])
+            d.add(rnd.choice(["\n", " ", ""]))
+        garb.append(d.text)
     recs = splitpipe.t3(chk, bib, texts + garb)
     chk.clause("T3.families", len(texts))
     chk.clause("T3.garbage", len(garb))
